@@ -309,11 +309,33 @@ fn build(c: &Collector, sc: &Scenario) -> emit_otlp::Otlp {
 }
 
 static PAD: std::sync::OnceLock<String> = std::sync::OnceLock::new();
+/// High-entropy text (6 bits per byte): gzip cannot shrink it much, so a large event also means a large COMPRESSED
+/// chunk (the repetitive `PAD` compresses 300-700 KiB down to a few KiB, which leaves the compressor's own buffering
+/// -- 32 KiB in flate2 -- unexercised).
+static PAD_DENSE: std::sync::OnceLock<String> = std::sync::OnceLock::new();
+
+fn dense_pad() -> String {
+    const ALPHABET: &[u8; 64] = b"ABCDEFGHIJKLMNOPQRSTUVWXYZabcdefghijklmnopqrstuvwxyz0123456789-_";
+    let mut x = 0x9E37_79B9_7F4A_7C15u64;
+    let mut out = String::with_capacity(32 * 32 * 2048);
+    while out.len() < 32 * 32 * 2048 {
+        x ^= x << 13;
+        x ^= x >> 7;
+        x ^= x << 17;
+        let mut w = x;
+        for _ in 0..10 {
+            out.push(ALPHABET[(w & 63) as usize] as char);
+            w >>= 6;
+        }
+    }
+    out
+}
 
 /// Emit one event that the routing rule (C14) sends to `signal`, carrying `case_id` and a `pad`
 /// string of `kib` KiB.
 fn emit_to(otlp: &emit_otlp::Otlp, signal: Signal, case_id: u64, kib: usize) {
-    let pad_all = PAD.get_or_init(|| "abcdefghijklmnopqrstuvwxyz012345".repeat(32 * 2048));
+    // odd sizes carry text gzip cannot compress, even sizes the repetitive one
+    let pad_all = if kib % 2 == 1 { PAD_DENSE.get_or_init(dense_pad) } else { PAD.get_or_init(|| "abcdefghijklmnopqrstuvwxyz012345".repeat(32 * 2048)) };
     let pad = &pad_all[..(kib * 1024).min(pad_all.len())];
     let name = format!("c{case_id}");
     let t0 = emit::Timestamp::from_unix(Duration::from_secs(1_700_000_000)).unwrap();
@@ -798,6 +820,7 @@ pub fn judge(sc: &Scenario, obs: &Observed, cx: &mut Cx) -> Result<Result<(), St
         }
         if r.phase != Phase::Head {
             cx.class(if r.gzip { "request:gzip" } else { "request:identity" });
+            cx.class_if(r.gzip && r.wire_len > 64 * 1024, "request:gzip-body-still>64KiB-compressed");
         }
         for rec in &r.records {
             if Some(rec.signal) != r.signal {
